@@ -80,6 +80,10 @@ def _scores(tier):
     out.append(("pickup_six_eight", lambda: G.build_part("P1", 2, ts=((0, 6, 8),), notes=[("u", 0, 1, "G", None, 4, 1, 1), ("a", 1, 3, "C", None, 5, 1, 1), ("b", 1, 3, "E", None, 4, 1, 1), ("c", 4, 2, "D", None, 5, 1, 1),
                                                                                         ("d", 6, 1, "F", 1, 4, 1, 1), ("e", 7, 6, "G", None, 4, 1, 1), ("f", 7, 3, "B", None, 3, 2, 1), ("g", 10, 3, "C", None, 4, 2, 1)],
                                                          measures=[(0, 1), (1, 7), (7, 13)])))
+    # a written-out rolled chord and a flam on a fine grid: distinct score onsets a few thousandths of a beat apart
+    out.append(("rolled_chord_on_a_grid_of_480_divisions", lambda: G.build_part("P1", 480, notes=[("r0", 0, 480, "C", None, 4, 1, 1), ("r1", 3, 477, "E", None, 4, 1, 1), ("r2", 6, 474, "G", None, 4, 1, 1),
+                                                                                                   ("m0", 480, 480, "D", None, 4, 1, 1), ("f0", 960, 4, "A", None, 4, 1, 1), ("f1", 964, 476, "B", None, 4, 1, 1),
+                                                                                                   ("m1", 1440, 480, "C", None, 5, 1, 1), ("lo", 0, 1920, "C", None, 3, 2, 1)])))
     if True:
         out.append(("with_grace", lambda: G.build_part("P1", 4, notes=[("n0", 0, 4, "C", None, 4, 1, 1), ("n1", 4, 4, "D", None, 4, 1, 1), ("n2", 8, 8, "E", None, 4, 1, 1)], graces=[("g", 4, "B", None, 3, 1, 1, "n1")])))
     return out
